@@ -51,6 +51,41 @@ theorem verify_with_keyring_sound (row : VGen.VersionRow) (e : Event) (sd : Exce
   subst hreq
   exact ⟨hlo, sig, hsig, halg, k, hsrc, hv, hre, hlen, hver⟩
 
+/-- **Soundness end to end, in the property's own words, at EVERY origin_server_ts.**  The validity fact of
+    `verify_with_keyring_sound` is the property's clause (`KeyRing.Spec.validAt`: before expired_ts for an expired key,
+    otherwise — strict room versions — at or before valid_until_ts capped at seven days from now), over unbounded
+    naturals: in particular, under a strict room version no event whose origin_server_ts lies after the key's
+    valid_until_ts or after now + 7 days verifies with an unexpired key — timestamps of 2^63 ms and beyond included
+    (`StrictValiditySignatureCheck` used to convert through int64 and accepted those against any key). -/
+theorem verify_with_keyring_sound_validAt (row : VGen.VersionRow) (e : Event) (sd : Except Err (Option Bytes))
+    (l : List Bytes) (hl : Signers.requiredSigners row e sd = .ok l)
+    (msg : Bytes → Bool × List KeyRing.SigInfo)
+    (db : KeyRing.FetchScript) (storeOk : Bool) (fetchers : List KeyRing.FetchScript) (now : Nat)
+    (rsB : List Bool) (tr : KeyRing.Trace)
+    (hrun : KeyRing.verifyJSONs (ringBatch row e msg l) db storeOk fetchers now = (.ok rsB, tr))
+    (valid : Signers.Request → Bool)
+    (hvalid : ∀ (i : Nat) (s : Bytes), l[i]? = some s → valid ⟨s, e.originServerTS, Signers.strictValidity row⟩ = true → rsB[i]? = some true)
+    (hok : Signers.verifyEventSignatures row e sd valid false = .ok ()) :
+    ∀ s ∈ l, ∃ sig ∈ (msg s).2, ∃ k : KeyRing.KeyRes,
+      ((∃ fromDB, db = some fromDB ∧ (⟨s, sig.keyID⟩, k) ∈ fromDB) ∨ (∃ m, some m ∈ fetchers ∧ (⟨s, sig.keyID⟩, k) ∈ m)) ∧
+      sig.verifies k.key = true ∧
+      KeyRing.Spec.validAt k e.originServerTS (Signers.strictValidity row) now = true ∧
+      (k.expiredTS ≠ 0 → e.originServerTS < k.expiredTS) ∧
+      (k.expiredTS = 0 → Signers.strictValidity row = true →
+        e.originServerTS ≤ k.validUntilTS ∧ e.originServerTS ≤ now + KeyRing.sevenDaysMs) := by
+  intro s hs
+  obtain ⟨_, sig, hsig, _, k, hsrc, hv, _, _, hver⟩ :=
+    verify_with_keyring_sound row e sd l hl msg db storeOk fetchers now rsB tr hrun valid hvalid hok s hs
+  refine ⟨sig, hsig, k, hsrc, hver, ?_, ?_, ?_⟩
+  · rw [KeyRing.spec_validAt_eq]; exact hv
+  · intro hne
+    have := (V.C12.wasValidAt_spec k e.originServerTS (Signers.strictValidity row) now).1 hv
+    simpa [hne] using this
+  · intro he hst
+    rw [hst] at hv
+    have := V.C12.strict_within_validity k e.originServerTS now he hv
+    exact ⟨this.2.1, this.2.2⟩
+
 /-- **Failure end to end.**  If for some required server the key ring's result is not a success, the event does not
     verify — whatever the other servers' results are. -/
 theorem verify_with_keyring_one_bad (row : VGen.VersionRow) (e : Event) (sd : Except Err (Option Bytes))
